@@ -32,15 +32,31 @@ func init() {
 			"pppoe.SessionTeardown.cleanup", "pppoe.SessionTeardown.sendAccountingStop",
 			// DHCP side: a new acknowledged session is started exactly once, renewals and refusals start nothing (Stops: C16)
 			"dhcp.Server.handleRequest",
+			// the accounting manager (pkg/radius/accounting.go): when records are emitted, queueing / retry,
+			// persist-before-stop / remove-after, orphan recovery
+			"radius.AccountingManager.StopSession", "radius.AccountingManager.sendAccountingStop", "radius.AccountingManager.sendAccountingStopSync", "radius.AccountingManager.StartSession", "radius.AccountingManager.queuePendingRecord", "radius.AccountingManager.processPendingRecord", "radius.AccountingManager.retryPendingRecords", "radius.AccountingManager.recoverOrphanedSessions", "radius.AccountingManager.persistActiveSession", "radius.AccountingManager.removePersistedSession", "radius.AccountingManager.fetchCounters", "radius.AccountingManager.drainAllSessions",
 			"pppoe.Server.handleIPCPConfigAck", "pppoe.Server.handlePADT", "pppoe.Server.handleLCPTermRequest", "pppoe.Server.endSession", "pppoe.Server.expireSessions",
 		},
 		Select: c08Select,
 		Trusted: []string{
+			"functype radius.CounterFetcher: the eBPF counter callback modifies nothing and returns non-nil counters with a nil error",
+			"engine library model (new, engine.patch): os.WriteFile / os.Remove have no effect on the modelled Go state, unconstrained error, and increment the function-level ghost counters fsWrites / fsRemoves when declared; (io/fs.DirEntry).IsDir/Name/Type have no effect; the rest of package os and path/filepath: no effect, unconstrained results (existing model)",
+			"sets clauses count calls: persists/unpersists (+ the value of acctStops/acctStarts at that moment) are incremented per call of persistActiveSession/removePersistedSession, queued* per call of queuePendingRecord, acctStops/acctStarts per call of Client.SendAccounting (by status type), also inside sendAccountingStop/Sync and processPendingRecord whose own postconditions prove the same count; a call of persistActiveSession stands for 'the copy was written' although MkdirAll / Marshal / WriteFile errors are only logged",
+			"radius.Client.SendAccounting through its existing contract (err == nil ==> the request was handed to radius.Exchange with the request's own identifiers)",
+			"sync/atomic operations are the plain sequential operations; channel send is a no-op and select picks a case nondeterministically (the channel pendingQueue only wakes the processor; the queue proper is the map pendingRecords)",
+			"json.Unmarshal into AccountingSession: string/integer/bool members follow the document model, MAC/FramedIP/Class/time members are unconstrained; json.Unmarshal into map[string]*PendingAcctRecord havocs the heap (only ghost counters are constrained after it)",
 			"engine library model layeh.com/radius: radius.New yields a packet without attributes; the generated setters rfcNNNN.X_Set/X_SetString/X_Add/X_Del record attribute number X_Type := value in ghost state (integer setters cannot fail; string and []byte setters fail and leave the packet unchanged beyond 253 octets; net.IP setters need an IPv4 address); (*Packet).Encode does not modify the packet; radius.Exchange snapshots the attributes of the packet it transmits (rad_sent_*) and does not modify program memory",
 			"trusted radius.Client.waitRateLimit: modifies nothing relevant (golang.org/x/time/rate.Limiter.Wait is external)",
 			"crypto/hmac.New returns a fresh hash object; context.CancelFunc values have no effect on modelled state",
 		},
 		Undecided: []string{
+			"eventual delivery ('eventually has an Accounting-Stop accepted'): liveness of pendingRecordProcessor / interimUpdateLoop (tickers, select loops, goroutines) is not under contract; Start, Stop, pendingRecordProcessor, interimUpdateLoop, sendInterimUpdates, sendInterimUpdate, persistPendingRecords have no contract",
+			"'durably queued while the server stays down': the queue (pendingRecords) lives in memory and reaches disk only in Stop() (persistPendingRecords); StopSession removes the persisted session right after the Stop was QUEUED, so a crash during an outage loses the Stop. The contracts prove 'accepted or queued in memory before the copy is removed', not durability of the queue",
+			"drainAllSessions: the per-session goroutines (closure with a parameter, WaitGroup, select on done/ctx) are not executed by the model: frame-only contract; sendAccountingStopSync, which they call, is verified",
+			"recoverOrphanedSessions: that the recovery Stop carries the SessionID read from the persisted copy is by inspection (the local 'session' of the loop body cannot be named in an iteration clause); order 'Stop before os.Remove' inside one iteration is not observed (both counted per iteration); entries whose os.ReadFile fails are left in place for the next start",
+			"'never before its Start': a session whose Start was never accepted (queued, then crash) still gets a Stop from recovery; ordering of a queued Start against a later direct Stop of the same session is not under contract",
+			"interleavings: each function is verified sequentially under the monitor model (owned fields arbitrary at every Lock subject to the lock invariants); data races on *AccountingSession fields written outside sessionsMu (StartSession writes session.StartTime under the lock, sendInterimUpdate reads it without) are not modelled",
+			"the AccountingManager is not referenced outside pkg/radius (pkg/dhcp and pkg/pppoe call Client.SendAccounting directly), so none of this protects the sessions of the running gateway",
 			"PPPoE: nothing in pkg/pppoe issues an Accounting-Start (obligation acctStarts == 0 of Server.handleIPCPConfigAck / handlePAP, the places where a session becomes established), so PPPoE sessions are not accounted at all in this repository; the teardown component sends the Stop iff Session.AcctStarted, which only embedding code can set. Delivery, retry and crash recovery of that Stop are not under contract (SessionTeardown calls radius.Client.SendAccounting directly, not the AccountingManager)",
 			"the other clauses of C08 (when records are emitted, retry/queueing, interim scheduling) are not covered by these contracts",
 			"Calling-Station-Id: formatMAC's result is an uninterpreted fmt.Sprintf string, so only the call is checked, not its format",
@@ -49,6 +65,8 @@ func init() {
 			"Acct-Input/Output-Packets have no gigaword companion in RADIUS: the record holds the value mod 2^32 (proved), the high word is not reported by the protocol",
 		},
 		Assumptions: []string{
+			"am.client != nil, session/record/request pointers non-nil as the constructors and call sites establish",
+			"lock invariants of AccountingManager: every session is filed under its own SessionID (sesskey); every pending record is non-nil, filed under its own ID and has a request (pendkey)",
 			"req is non-nil; all 64-bit counter values are unconstrained",
 			"an absent Acct-*-Gigawords attribute means 0 (RFC 2869)",
 		},
